@@ -233,6 +233,24 @@ fn run(line: &str) -> String {
         return format!("{{\"violated\":{},\"claims\":\"{}\",\"detail\":\"pre-state {:?} enabled={} position {:?} (delay {}, total duration {}), component x = {}, frame delta {} s{} -> state {:?}, position {:?}, x = {} (terminal value {}), events {:?}\"}}",
                        !bad.is_empty(), bad.join(","), st0, enabled, pos0, rdly, rdur, x_start, delta, if paused { " (clock paused: zero-length frame)" } else { "" }, ns, npos, nx, terminal, evs);
     }
+    if kind == "bevy_builder_dup" {
+        // a key registered twice on one AnimationSelectorBuilder: the timeline specified last is the one the key plays
+        let mut app = App::new();
+        app.add_plugins(AnimationPlugin::<V>::new()).init_resource::<Time>();
+        app.register_animation_key::<V, Key>();
+        let first = V::timeline().duration_seconds(1.0).keyframe(V::keyframe(1.0).x(10.0)).build();
+        let second = V::timeline().duration_seconds(1.0).keyframe(V::keyframe(1.0).x(-100.0)).build();
+        let selector = AnimationSelectorBuilder::<Key, V>::new().add(Key::Go, first).add(Key::Go, second).initial_key(Key::Idle).build();
+        let e = app.world.spawn((V { x: 0.0 }, Animator::<V>::new(), selector)).id();
+        let mut now = Instant::now();
+        app.world.resource_mut::<Time>().update_with_instant(now);
+        let mut step = |app: &mut App, dt: f32| { now += Duration::from_secs_f32(dt); app.world.resource_mut::<Time>().update_with_instant(now); app.update(); };
+        step(&mut app, 0.1);
+        app.world.get_mut::<AnimationSelector<Key, V>>(e).unwrap().timeline_key = Key::Go;
+        for _ in 0..8 { step(&mut app, 0.25); }
+        let x = app.world.get::<V>(e).unwrap().x;
+        return format!("{{\"violated\":{},\"detail\":\"builder.add(Go, t -> 10).add(Go, t -> -100): after key Go played to its end the component shows x = {} (the timeline specified last ends at -100)\"}}", x != -100.0, x);
+    }
     if kind == "bevy_two_plugins" {
         // two AnimationPlugins in one App: every animated component type gets its per-frame system
         let mut app = App::new();
